@@ -87,6 +87,8 @@ def main():
         summary.append((sid, res.get("detected_by"), res.get("demo_clean_exit"), res.get("demo_patched_exit"), res.get("apply_error")))
         print(sid, "detected_by=", res.get("detected_by"), "demo clean/patched exit=", res.get("demo_clean_exit"), res.get("demo_patched_exit"),
               res.get("apply_error", ""), flush=True)
+    # the checks above re-traced lean/Generated/* from the PATCHED sources; the committed files describe /repo itself
+    sh(["git", "-C", str(VERIF), "checkout", "--", "lean/Generated"])
     missed = [s for s in summary if not s[1]]
     print(f"{len(summary) - len(missed)}/{len(summary)} seeded changes detected; missed: {[m[0] for m in missed]}")
 
